@@ -460,7 +460,7 @@ def r7_base_through_resolver(ctx):
     T = ctx.tracer
     out = []
     ob = F.body(PH + "::open_base")
-    ro = [o for o in T.return_origins(ob, ("0",))]
+    ro = [o for o in T.return_origins(ob, OKP)]
     ok = bool(ro) and all(o.kind == "call" and o.term.callee in LOOKUP for o in ro)
     (out.append(holds("C06.R7", "open_base:via-resolver", ob.where(), "base directory comes from ProcfsResolver::resolve on the handle's own root")) if ok else
      out.append(violated("C06.R7", "open_base:via-resolver", ob.where(), "the procfs base directory is not looked up through the restricted resolver: %r" % ro)))
